@@ -65,6 +65,7 @@ def run(project, rep):
     rep.run(Z.z_r5b_sign_of_zero_hours, project, rep)
     # what the writer emits for a zone in civil use (-12..+14) is not refused by the reader's range tests
     rep.run(Z.z_r8_offset_domain, project, rep)
+    rep.run(Z.z_r9_no_value_memo, project, rep)
     rep.run(Z.z_r6_carrier_date, project, rep)
     rep.run(Z.z_r7_aware_values_kept, project, rep)
     from .. import rules_header as H
